@@ -141,6 +141,7 @@ func directedConflicts(keys map[string]*Key, chainID string, pre *MState, h int6
 
 func checkC06(c *Ctx) {
 	c.rule = "noisy-vs-quiet twin: the same blocks are executed on a quiet replica and on a replica that serves 0-3 CheckTx/Query calls in every gap between consensus calls (the block's own transactions before/after delivery, the next block's, conflicting ones from the same senders and for the same delegatees, junk bytes; every query path at heights latest/old/future); all consensus responses and app hashes must be equal. Concurrent mode: a -race replica executes the blocks while 4-8 client goroutines issue the same traffic through the shared local client; zero data-race reports and equal consensus responses. distinct = distinct (gap kind x call kind) interleaving signatures observed"
+	c.assumptions = append(c.assumptions, "application calls never overlap in the node: consensus, mempool and query connections share the one mutex of rigoLocalClient; concurrency is exercised as contention for that mutex, races that need two overlapping application calls are outside what the node can do (DESIGN 12.4)")
 	n := c.N(24, 300)
 	raceEvery := 3
 	c.Parallel(n, 0, func(i int) {
